@@ -1311,7 +1311,13 @@ def typearg_cases(jobs):
 
             base[int(k)] = {"list": list, "dict": dict, "str": str, "int": int, "tuple": tuple, "Sequence": collections.abc.Sequence}[name]
 
-        def real(e):
+        def real(e, anyspell=False):
+            if anyspell:
+                # the same element with every `object` written typing.Any
+                if e["k"] == "cls" and e["c"] == 1:
+                    return typing.Any
+                if e["k"] == "gen":
+                    return base[e["o"]][tuple(real(a, True) for a in e["args"])]
             if e["k"] == "cls":
                 return base[e["c"]]
             if e["k"] == "any":
@@ -1332,6 +1338,8 @@ def typearg_cases(jobs):
                 continue
             objs[n] = real(e)
             ns[f"E{n}"] = objs[n]
+            if e["k"] in ("cls", "gen"):
+                ns[f"A{n}"] = real(e, True)
         src = []
         for m in w["methods"]:
             params = []
@@ -1347,6 +1355,8 @@ def typearg_cases(jobs):
                     ann = f"E{n}"
                 elif m.get("bare") and els[n - 1] == {"k": "cls", "c": 1}:
                     ann = "type"
+                elif m.get("anyspell") and els[n - 1]["k"] in ("cls", "gen"):
+                    ann = f"type[A{n}]"      # object written typing.Any: type[Any], type[list[Any]]
                 else:
                     ann = f"type[E{n}]"
                 params.append(f"p{i + 1}: {ann}")
